@@ -127,6 +127,11 @@ func pubsubHarness(rc *RunCtx) {
 	stompLimit := 0
 	if rc.Prop == "C12" && kind == "stomp" {
 		stompLimit = []int{0, 200, 512, 4096}[tp.Intn("cfg", 4)]
+		if tp.Intn("tinylimit", 8) == 1 {
+			// a limit below the size of the frame prefix: every publish is too large for it
+			stompLimit = 1 + tp.Intn("tinylimit", 5)
+			rc.Fault("stomp-publish-limit-of-a-few-bytes")
+		}
 		rc.Sample["stomp_max_publish_size"] = stompLimit
 	}
 	type sizedPub struct {
@@ -300,6 +305,13 @@ func pubsubHarness(rc *RunCtx) {
 			ctx := frugal.NewFContext("c12")
 			ctx.AddRequestHeader("note", "note-after")
 			sp := &sizedPub{name: "note-after", size: 1, limit: limit}
+			if limit > 0 && limit < 200 {
+				// (limits of a few bytes: what counts is the real framed size, and this small note is over it)
+				hdr := ctx.RequestHeaders()
+				hdr["_topic_user"] = user
+				sp.size = len(EncodeFrame(hdr, rawMessage(proto, "Note", thrift.CALL, []rawField{
+					{1, thrift.STRING, sp.name}, {2, thrift.STRING, []byte{1}}, {3, thrift.LIST, rawList{elem: thrift.I32}}})))
+			}
 			sized = append(sized, sp)
 			sp.err = pub.PublishNote(ctx, user, &simbase.Blob{Name: "note-after", Data: []byte{1}, Nums: []int32{}})
 			settle(2 * time.Second)
